@@ -12,6 +12,7 @@ import hashlib
 import random
 
 from dsim.kernel import Violations
+from models.usb2_wire import gen_idle_data
 from models import usb2
 from models.usb2 import UTMIHost, token_packet, data_packet, sof_packet, handshake_packet, parse_token
 from engines.usb2_device import device_bench, IDLE_INIT
@@ -133,6 +134,7 @@ def gen(rng, tier, index):
             if rng.random() < p_lost:
                 hs = rng.choice(["none", "none", "garbled"])
             ops.append({"op": "poll", "changes": changes, "hs": hs, "gap": rng.choice([2, 3, 6, 12, 25]) * bit})
+    cfg["idle_data"] = gen_idle_data(rng)
     return {"engine": ENGINE, "config": cfg, "ops": ops}
 
 
@@ -275,7 +277,7 @@ def run(scn):
                 yield from h.idle(op["gap"])
         yield from h.idle(PULSE_WINDOW + 4)
 
-    host = UTMIHost(script, byte_period=cfg["byte_period"], pre=cfg["pre"], post=cfg["post"], gap_pattern=cfg["gaps"],
+    host = UTMIHost(script, idle_data=cfg.get("idle_data"), byte_period=cfg["byte_period"], pre=cfg["pre"], post=cfg["post"], gap_pattern=cfg["gaps"],
                     txready=(cfg["txready"] if cfg["txready"] == "always" else tuple(cfg["txready"])))
     mon = _Monitor(f"st{EP}_read_complete")
     max_cycles = 400 + sum(8 * (cfg["byte_period"] + 3) + 2 * timeout + (nbytes + 12) * 6 + op.get("gap", 0) + op.get("n", 0)
